@@ -231,16 +231,35 @@ func checkC03(tier string, seed int64) int {
 	for i := 0; i < 12; i++ {
 		corpus = append(corpus, genComposite(i, seed*1000+int64(i)).Src, genCallProg(i, seed*1000+int64(i)).Src, genScopeProg(i, seed*1000+int64(i)).Src)
 	}
+	// scripts that terminate but whose values are awkward to render or to walk: a fatal stack overflow inside a
+	// builtin cannot be recovered by Eval, so the host dies although the script is finite
+	corpus = append(corpus,
+		"import \"fmt\"\ns := []any{0}\ns[0] = s\nx := fmt.Sprint(s)\nx\n",
+		"a := []any{1}\nb := []any{a, 2}\na[0] = b\nprintln(a)\n",
+		"import \"fmt\"\nm := map[string]any{\"k\": 1}\nm[\"k\"] = m\nfmt.Println(m)\n",
+		"s := []any{0}\ns[0] = s\npanic(s)\n",
+		"type N struct {\n\tnext *N\n\tkids []any\n}\nn := &N{}\nn.next = n\nn.kids = append(n.kids, n)\nprintln(n)\npanic(n)\n",
+		"import \"fmt\"\ns := []any{0}\nt := []any{s}\ns[0] = t\nu := s == nil\nfmt.Println(u, len(s), s)\n",
+	)
 	cagg := NewAgg()
 	if onlyNesting {
 		corpus = nil
 	}
+	saveCorpusSteps := c.Eng.MaxSteps
+	c.Eng.MaxSteps = 40_000_000 // whole programs: the front end alone needs millions of SSA steps
 	parallel(len(corpus), c.Eng.Workers, func(i int) {
 		src := corpus[i]
 		rep := c.Eng.ExploreWith(func(ex *gosx.Exec) {
 			ex.InitPackage(c.Eng.Pkg)
 			td, cd, ei := ex.Input("td", gosx.SBool), ex.Input("cd", gosx.SBool), ex.Input("ei", gosx.SBool)
-			res, pan := ex.Call(ex.Func("verifC03Eval"), src, td, cd, ei)
+			res, pan, unwound := ex.CallBounded(ex.Func("verifC03Eval"), src, td, cd, ei)
+			if unwound != "" {
+				if strings.HasPrefix(unwound, "step bound") && strings.Contains(unwound, ".exec") {
+					ex.EndUnwind(unwound) // a script that does not terminate is excepted by the property
+				}
+				ex.Assert(ex.TT().Bool(false), "C03/host-panic-or-front-end-nontermination/corpus", "Eval does not come back: "+unwound, map[string]interface{}{"src": src})
+				return
+			}
 			if pan != nil {
 				where := ex.PanicOrigin()
 				ex.Assert(ex.TT().Bool(false), "C03/host-panic/"+where+"/"+panicClass(ex.PanicText(pan)), fmt.Sprintf("a Go panic escapes to the host from %s: %s", where, ex.PanicText(pan)), map[string]interface{}{"src": src})
@@ -261,6 +280,7 @@ func checkC03(tier string, seed int64) int {
 		}
 		mu.Unlock()
 	})
+	c.Eng.MaxSteps = saveCorpusSteps
 	cagg.Into(c, "corpus_")
 	c.Cov("corpus_sources", len(corpus))
 	// native replay: render the token sequence as source text and run the real Eval
@@ -322,7 +342,9 @@ func checkC03(tier string, seed int64) int {
 		c.nonTerminationFails = true
 		res := c.runLemmaHarnesses([]string{"verifH_C03_trees"}, "z3", tagg)
 		c.nonTerminationFails = false
-		c.confirmLemmaFailures(res, func(id string) string { return "Load/Eval over an awkward tree: " + strings.TrimPrefix(id, "C03/trees/") })
+		c.confirmLemmaFailures(res, func(id string) string {
+			return "Load/Eval over an awkward tree: " + strings.TrimPrefix(id, "C03/trees/")
+		})
 		tagg.Into(c, "trees_")
 		c.Assumption("tree harness: 10 directory shapes (imported directory holding only _test.go files / no .go file / only a build-excluded file / a file without package clause / a differently named package / a path naming a file; vendor and shortened-path candidates holding only test files; a Load target holding only a test file) through Load and through Eval with an import; exceeding the step bound in the loader is reported as non-termination and confirmed natively with a timeout")
 	}
